@@ -418,12 +418,12 @@ def work(rep, args):
         rng.shuffle(small)
         short = [b for b in small if len(b) <= 48]
         longer = [b for b in small if len(b) > 48]
-        nshort, nlong = (16, 2) if quick else (250, 25)
+        nshort, nlong = (16, 2) if quick else (200, 20)
         mut_bases = short[:nshort] + longer[:nlong]
         # plus accepted datagrams of the model with several options
         model_ok.sort()
         rng.shuffle(model_ok)
-        mut_bases += model_ok[: (4 if quick else 40)]
+        mut_bases += model_ok[: (4 if quick else 30)]
         nmut = 0
         for b in mut_bases:
             for x in L.mutations(b, rng):
